@@ -11,6 +11,22 @@ for line in p.stdout.splitlines():
     except Exception: continue
     if e.get("Test") and e.get("Action") in ("pass", "fail"):
         (passed if e["Action"] == "pass" else failed).add(e["Package"] + "::" + e["Test"])
+# wall-clock assertions (e.g. TestMetricsCollector_Performance) flake when the machine is loaded: re-run failing packages
+for attempt in range(3):
+    if not failed:
+        break
+    pkgs = sorted({t.split("::")[0] for t in failed})
+    p2 = subprocess.run(["go", "test", "-json", "-vet=off", "-count=1", "-timeout", "25m"] + pkgs,
+                        cwd=repo, env=env, capture_output=True, text=True)
+    again_pass, again_fail = set(), set()
+    for line in p2.stdout.splitlines():
+        try: e = json.loads(line)
+        except Exception: continue
+        if e.get("Test") and e.get("Action") in ("pass", "fail"):
+            (again_pass if e["Action"] == "pass" else again_fail).add(e["Package"] + "::" + e["Test"])
+    print("re-run of %s: %d failed before, %d fail now" % (pkgs, len(failed), len(again_fail)))
+    passed |= (failed - again_fail) & again_pass
+    failed = again_fail
 base = set(json.load(open("/root/.vp/BASELINE.json"))["stable_pass"])
 missing = sorted(base - passed)
 print(f"baseline={len(base)} passed={len(passed)} failed={len(failed)} missing_from_baseline={len(missing)}")
